@@ -391,6 +391,10 @@ EXTRA = [
     ('TTU64*', lambda n: [Member(n, 'TTU64', OPTIONAL)]),        # ... through two typedef levels
     ('TFx8*', lambda n: [Member(n, 'TFx8', OPTIONAL)]),          # optional of a typedef of an 8-aligned struct
     ('TTFx8*', lambda n: [Member(n, 'TTFx8', OPTIONAL)]),
+    ('Un4*', lambda n: [Member(n, 'Un4', OPTIONAL)]),            # optionals of types whose C++ object is not wire-sized
+    ('Un8*', lambda n: [Member(n, 'Un8', OPTIONAL)]),
+    ('Un12*', lambda n: [Member(n, 'Un12', OPTIONAL)]),
+    ('FxO*', lambda n: [Member(n, 'FxO', OPTIONAL)]),
     ('TTU64', lambda n: [Member(n, 'TTU64')]),
     ('TTU64[2]', lambda n: [Member(n, 'TTU64', FIXED, 2)]),
 ]
